@@ -195,6 +195,7 @@ pub fn distinct_blindings(inst: &mut Inst, rng: &mut (impl RngCore + rand_core::
 
 pub fn c09(opts: &Opts, out: &mut Out) {
     let mut rng = chacha(opts.seed, 9);
+    crate::scen_core::coincidences(opts, out, "C09");
     let mut classes = std::collections::BTreeSet::new();
     let reps = if opts.thorough { 4 } else { 2 };
     for &n in &[1usize, 2, 4, 8, 16, 32, 64] {
